@@ -42,6 +42,12 @@ EXPR = [
     ('FStr', "f'{{{0}}}'"), ('FStrConv', "f'{{{0}!r}}'"), ('FStrSpec', "f'{{{0}:{{{1}}}}}'"),
     ('FStrText', "f'a{{{0}}}b{{{1}}}'"), ('FStrDebug', "f'{{{0}=}}'"), ('FStrSpecLit', "f'{{{0}:>4}}'"),
     ('StrCat', "'a' 'b'"), ('FStrCat', "'a' f'{{{0}}}'"),
+    # the field starts with whatever the leftmost leaf of these expressions prints: a leading '{' (dict/set display or comprehension, reachable only
+    # through the parenthesised child variant) must be separated from the field's own brace
+    ('FStrSub', "f'{{{0}[a]}}'"), ('FStrAttr', "f'{{{0}.a}}'"), ('FStrCallee', "f'{{{0}(a)}}'"), ('FStrBinL', "f'{{{0}+a}}'"), ('FStrCmpL', "f'{{{0}<a}}'"),
+    ('FStrBoolL', "f'{{{0} or a}}'"), ('FStrIfL', "f'{{{0} if a else b}}'"), ('FStrTupleL', "f'{{{0},a}}'"), ('FStrSubSub', "f'{{{0}[a][b].c(d)}}'"),
+    ('FStrAwaitL', "f'{{await {0}}}'"), ('FStrStarL', "f'{{*{0},}}'"), ('FStrConvL', "f'{{{0}!r:>{{a}}}}'"), ('FStrLambda', "f'{{(lambda:{0})}}'"),
+    ('FStrNested', "f'{{f\"{{{0}}}\"}}'"), ('FStrNestedSub', "f'{{f\"{{{0}[a]}}\"}}'"),
 ]
 EXPR_D = dict(EXPR)
 
